@@ -124,6 +124,8 @@ class Interp:
                 return base[node.attr]
             if node.attr == "__name__" and isinstance(base, str) and U(node.value).endswith("__class__"):
                 return base  # object models store their class by name
+            if node.attr in ("__name__", "__qualname__") and isinstance(base, dict) and base.get("__is_class__"):
+                return base["__class__"]
             if self.attr_hook is not None and isinstance(base, dict):
                 got = self.attr_hook(self, base, node.attr, node)
                 if got is not NotImplemented:
